@@ -261,6 +261,7 @@ pub struct Finding {
 }
 
 pub fn load_findings() -> Vec<Finding> {
+    // the findings file is always the committed one
     let path = "/verif/known_findings.json";
     let Ok(s) = std::fs::read_to_string(path) else { return vec![] };
     let Ok(j) = serde_json::from_str::<Value>(&s) else {
@@ -284,6 +285,12 @@ pub fn load_findings() -> Vec<Finding> {
 
 // ---------------------------------------------------------------------------
 // Finishing a check: evidence, VIOLATION lines, exit code
+
+/// Where evidence and replay files go: /verif, unless the self-test redirects it
+/// (VERIF_OUT_ROOT) so that runs against mutated copies never touch the real evidence.
+pub fn out_root() -> String {
+    std::env::var("VERIF_OUT_ROOT").unwrap_or_else(|_| "/verif".to_string())
+}
 
 pub struct CheckMeta {
     pub id: &'static str,
@@ -362,8 +369,9 @@ pub fn finish(meta: CheckMeta, mut st: Stats, started: Instant) -> i32 {
         "wall_s": wall,
         "violations": fresh.len(),
     });
-    let _ = std::fs::create_dir_all("/verif/evidence");
-    let path = format!("/verif/evidence/{}.json", meta.id);
+    let root = out_root();
+    let _ = std::fs::create_dir_all(format!("{root}/evidence"));
+    let path = format!("{root}/evidence/{}.json", meta.id);
     if let Err(e) = std::fs::write(&path, serde_json::to_string_pretty(&ev).unwrap()) {
         eprintln!("MACHINERY-FAILURE: cannot write {path}: {e}");
         return 2;
@@ -388,10 +396,10 @@ pub fn finish(meta: CheckMeta, mut st: Stats, started: Instant) -> i32 {
         println!("CAP: {c}");
     }
     if !fresh.is_empty() {
-        let _ = std::fs::create_dir_all("/verif/replays");
+        let _ = std::fs::create_dir_all(format!("{root}/replays"));
         for v in fresh.iter().take(10) {
             let fp = hash64(&(v.class.clone(), v.summary.clone()));
-            let rp = format!("/verif/replays/{}-{:016x}.json", meta.id, fp);
+            let rp = format!("{root}/replays/{}-{:016x}.json", meta.id, fp);
             let mut r = v.replay.clone();
             r["property"] = json!(meta.id);
             r["class"] = json!(v.class);
